@@ -92,7 +92,8 @@ theorem newDT_positions : ∀ (dt : DataType) (path : String) (nullable : Bool) 
       have ih := newB_positions child _ el h1
       simp only [positions, segsDT, positionsAt_cons, positionsAt_under, ih, leafLabel]
       simp [render]
-  | .map (.mk ename (.struct (.cons kf (.cons vf rest))) en emd) sorted, path, nullable, md, b, h => by
+  | .map (.mk _ (.struct (.cons _ (.cons _ (.cons _ _)))) _ _) _, path, nullable, md, b, h => by simp [newDT, fail] at h
+  | .map (.mk ename (.struct (.cons kf (.cons vf .nil))) en emd) sorted, path, nullable, md, b, h => by
     simp only [newDT] at h
     obtain ⟨kb, h1, h⟩ := (bind_ok _ _ _).1 h
     obtain ⟨vb, h2, h⟩ := (bind_ok _ _ _).1 h
@@ -145,6 +146,8 @@ theorem newDT_positions : ∀ (dt : DataType) (path : String) (nullable : Bool) 
     simp [segsDT, positionsAt_cons, render]
   | .dictionary k v, path, nullable, md, b, h => by
     simp only [newDT] at h
+    split at h
+    case isFalse => simp [ctx_ok, fail] at h
     obtain ⟨kb, h1, h⟩ := (bind_ok _ _ _).1 h
     obtain ⟨vb, h2, h⟩ := (bind_ok _ _ _).1 h
     cases h
